@@ -4,7 +4,8 @@ import Driver.Util
   Driver of protocol `waittable` (C04: the proposal wait table with pooled wait channels). The real side runs
   KVNode.queueRequest / ProposeInternal / the wait function on the real pkg/wait registry and the real sync.Pool of request
   headers; this side is the executable model Z.WaitTable (Node/WaitTable.lean) in the configuration `Cfg.code` the theorems
-  of Props/C04Wait.lean are about.  The scheduler's `pick` is what sync.Pool does on ONE P without a collection in between:
+  of Props/C04Wait.lean are about (since fix 184e1b3: the atomic Trigger — `applied` is ONE step, `signal` finds nothing).
+  The scheduler's `pick` is what sync.Pool does on ONE P without a collection in between:
   Put fills the private slot if it is empty, else pushes on the shared stack; Get takes the private slot, else pops the
   shared stack, else New.  One answer line per op line (grammar: harness/cmd/zvh/proto_waittable.go).
 -/
@@ -71,7 +72,24 @@ def step (st : St) (line : String) : St × String :=
       | some id, some res =>
         if n = 0 then (st, "noop") else
         let reg := (st.m.tab id).isSome
-        ({ st with m := Z.WaitTable.step Cfg.code st.m (.applied id res) }, s!"applied r{id} " ++ (if reg then "reg" else "unreg"))
+        let m1 := Z.WaitTable.step Cfg.code st.m (.applied id res)
+        if m1.panicked then ({ st with m := m1, dead := true }, s!"panic r{id}")
+        else ({ st with m := m1 }, s!"applied r{id} " ++ (if reg then "reg" else "unreg"))
+      | _, _ => (st, "bad-op")
+    | ["giveup-in-window", k, r] =>
+      -- the waiter of id gives up while the Trigger of id is between its parts: with the atomic Trigger that is `applied`
+      -- and then the give-up of a waiter whose id is unregistered and whose channel holds the signal
+      match arg k, parseRes r with
+      | some id, some res =>
+        match st.m.waiter id with
+        | none => (st, "skip")
+        | some ch =>
+          if st.m.full ch || (st.m.tab id).isNone then (st, "skip") else
+          let m1 := Z.WaitTable.step Cfg.code st.m (.applied id res)
+          if m1.panicked then ({ st with m := m1, dead := true }, s!"panic r{id}") else
+          let m2 := Z.WaitTable.step Cfg.code m1 (.timeout id)
+          if m2.panicked then ({ st with m := m2, dead := true }, s!"panic r{id}")
+          else (put { st with m := m2 } ch, s!"applied r{id} reg; gaveup r{id}")
       | _, _ => (st, "bad-op")
     | ["signal", k] =>
       match arg k with
